@@ -7,6 +7,7 @@ from ..dataflow import DefUse
 from .. import events as E
 from .. import types as T
 from ..guards import guarded_by, text_atom
+from ._h_E import Flow, arg, argn, nargs, facts_full
 
 EXPLANATION = (
   "Decides that engine state and stored actions cannot drift apart structurally: one gateway "
@@ -59,34 +60,38 @@ def r1_gateway(run, w):
   applies = [(n, c) for (n, c, nm) in gw.calls() if is_apply(c, nm, gw)]
   if not applies:
     raise AnalysisError("gateway no longer calls apply_doc_action")
+  flow = Flow(gw)
   for (n, c) in applies:
-    arg = c.args[0] if c.args else None
-    var = arg.id if isinstance(arg, ast.Name) else None
-    st = {m.id for (m, c2, nm) in gw.calls() if endswith(nm, "out_actions.stored.append") and
-          len(c2.args) == 1 and isinstance(c2.args[0], ast.Name) and c2.args[0].id == var}
+    a_applied = argn(w, gw, c, 0)
+    var = text(a_applied) if a_applied is not None else None
+    # stored.append(<the very value that is applied>): same local with the same reaching
+    # bindings (so nothing rebinds it in between), or the same expression
+    st = set()
+    for (m, c2, nm) in gw.calls():
+      if endswith(nm, "out_actions.stored.append") and nargs(c2) == 1 and a_applied is not None:
+        a_st = c2.args[0] if c2.args else c2.keywords[0].value
+        if flow.same_value(a_st, m.id, a_applied, n.id):
+          st.add(m.id)
     di = {m.id for (m, c2, nm) in gw.calls() if endswith(nm, "out_actions.direct.append")}
-    # no rebinding of the variable between the stored append and the apply
-    du = DefUse(gw)
-    reb = du.rebinders(var) if var else set()
-    ok_st = bool(st) and cfg.dominated_by(n.id, st) and \
-        not any(n.id in cfg.reach_after({s}, removed=set()) and
-                (cfg.reach_after({s}) & reb & cfg.reach({n.id}, forward=False)) for s in st)
+    ok_st = bool(st) and cfg.dominated_by(n.id, st)
     run.ob(R1, gw.qualname, "stored.append(%s) dominates apply_doc_action(%s)" % (var, var),
            "the action applied is the action recorded", ok_st, fi=gw.fi, node=c)
     run.ob(R1, gw.qualname, "direct.append(...) dominates apply_doc_action",
            "a direct flag is recorded for every applied action",
            bool(di) and cfg.dominated_by(n.id, di), fi=gw.fi, node=c)
     # and nothing is recorded without being applied: stored.append is post-dominated by apply
-    for s in st:
+    for s_ in st:
       run.ob(R1, gw.qualname, "stored.append post-dominated by apply_doc_action",
              "no stored action without the engine applying it",
-             cfg.postdominated_by(s, {n.id}), fi=gw.fi)
+             cfg.postdominated_by(s_, {n.id}), fi=gw.fi)
     # the direct flag reflects the indirection level
     for (m, c2, nm) in gw.calls():
       if endswith(nm, "out_actions.direct.append"):
         a = c2.args[0] if c2.args else None
+        a = flow.resolve(a, m.id)[0] if a is not None else None
         ok = isinstance(a, ast.Compare) and len(a.ops) == 1 and isinstance(a.ops[0], ast.Eq) and \
-            {text(a.left), text(a.comparators[0])} == {"self._indirection_level", "DIRECT_ACTION"}
+            {flow.itext(a.left, m.id), flow.itext(a.comparators[0], m.id)} == \
+            {"self._indirection_level", "DIRECT_ACTION"}
         run.ob(R1, gw.qualname, short(c2), "direct flag is (indirection level == DIRECT_ACTION)",
                ok, fi=gw.fi, node=c2)
 
@@ -127,39 +132,53 @@ def r3_change_capture(run, w):
   sets = [(n, c) for (n, c, nm) in fn.calls() if E.is_column_mutation(c, nm, fn)]
   if not sets:
     raise AnalysisError("_recompute_step: column write not found")
-  du = DefUse(fn)
+  flow = Flow(fn)
+  node_param = fn.fi.params()[1]
   for (n, c) in sets:
-    if c.func.attr != "set" or len(c.args) != 2:
+    a_row, a_val = argn(w, fn, c, 0), argn(w, fn, c, 1)
+    if c.func.attr != "set" or nargs(c) != 2 or a_row is None or a_val is None:
       run.ob(R3, fn.qualname, short(c), "recognised column write", False, fi=fn.fi, node=c)
       continue
-    row, val = text(c.args[0]), text(c.args[1])
     caps = set()
-    cap_lists = set()
+    cap_sites = []
     for (m, c2, nm) in fn.calls():
-      if isinstance(c2.func, ast.Attribute) and c2.func.attr == "append" and len(c2.args) == 1 and \
-          isinstance(c2.args[0], ast.Tuple) and len(c2.args[0].elts) == 3 and \
-          isinstance(c2.func.value, ast.Name):
-        e = c2.args[0].elts
-        if text(e[0]) == row and text(e[2]) == val:
-          caps.add(m.id)
-          cap_lists.add((c2.func.value.id, text(e[1])))
+      if isinstance(c2.func, ast.Attribute) and c2.func.attr == "append" and nargs(c2) == 1 and \
+          c2.args:
+        tup = flow.resolve(c2.args[0], m.id)
+        if isinstance(tup[0], ast.Tuple) and len(tup[0].elts) == 3:
+          e = tup[0].elts
+          if flow.same_value(e[0], tup[1], a_row, n.id) and \
+              flow.same_value(e[2], tup[1], a_val, n.id):
+            caps.add(m.id)
+            cap_sites.append((m.id, c2.func.value, e[1], tup[1]))
     ok = bool(caps) and cfg.dominated_by(n.id, caps)
     wit = None if ok else cfg.describe_path(cfg.path(cfg.entry.id, {n.id}, removed=caps))
     run.ob(R3, fn.qualname, short(c), "write dominated by changes.append((row, previous, value))",
            ok, witness=wit, fi=fn.fi, node=c)
-    for (lst, prev) in sorted(cap_lists):
-      # the list is the _changes_map entry for this node
-      defs = E.local_defs(fn.node, lst)
-      ok_map = any(isinstance(v, ast.Call) and endswith(fn.name(v), "_changes_map.setdefault")
-                   and v.args and text(v.args[0]) == fn.fi.params()[1] for v in defs)
-      run.ob(R3, fn.qualname, "%s = self._changes_map.setdefault(node, [])" % lst,
+    for (mid, lst, prev, pn) in cap_sites:
+      # the list is the _changes_map entry for this node (None / empty until the first change)
+      ls = flow.leaves(lst, mid)
+      def entry(x, k):
+        return isinstance(x, ast.Call) and endswith(fn.name(x), "_changes_map.setdefault") and \
+            bool(x.args) and flow.itext(x.args[0], k, stop=(node_param,)) == node_param
+      def empty(x):
+        return (isinstance(x, ast.Constant) and x.value is None) or \
+            (isinstance(x, (ast.List, ast.Tuple)) and not x.elts)
+      ok_map = any(entry(l.expr, l.nid) for l in ls) and \
+          all(entry(l.expr, l.nid) or empty(l.expr) for l in ls)
+      run.ob(R3, fn.qualname, "%s = self._changes_map.setdefault(node, [])" % text(lst),
              "the capture list is this node's entry of _changes_map", ok_map, fi=fn.fi)
       # previous is the stored value of that cell read before the write
-      pdefs = E.local_defs(fn.node, prev)
-      ok_prev = len(pdefs) == 1 and isinstance(pdefs[0], ast.Call) and \
-          isinstance(pdefs[0].func, ast.Attribute) and pdefs[0].func.attr == "raw_get" and \
-          text(pdefs[0].func.value) == text(c.func.value) and text(pdefs[0].args[0]) == row
-      run.ob(R3, fn.qualname, "%s = %s.raw_get(%s)" % (prev, text(c.func.value), row),
+      pl = flow.leaves(prev, pn)
+      ok_prev = len(pl) == 1 and isinstance(pl[0].expr, ast.Call) and \
+          isinstance(pl[0].expr.func, ast.Attribute) and pl[0].expr.func.attr == "raw_get" and \
+          nargs(pl[0].expr) == 1 and bool(pl[0].expr.args) and \
+          flow.same_value(pl[0].expr.func.value, pl[0].nid, c.func.value, n.id) and \
+          flow.same_value(pl[0].expr.args[0], pl[0].nid, a_row, n.id)
+      # the read precedes the write (same row binding, hence same iteration)
+      ok_prev = ok_prev and cfg.dominated_by(n.id, {pl[0].nid}) and pl[0].nid != n.id
+      run.ob(R3, fn.qualname, "%s = %s.raw_get(%s)" % (text(prev), text(c.func.value),
+                                                     text(a_row)),
              "previous value is read from the same cell", ok_prev, fi=fn.fi)
   # who fills _changes_map: only _recompute_step
   for fi in w.repo.all_functions():
@@ -296,38 +315,29 @@ def r5_flush_complete(run, w):
     if not _is_flusher(w, f):
       continue
     fn = w.fn_of(f)
-    loop = [s for s in ast.walk(f.node) if isinstance(s, ast.For) and isinstance(s.iter, ast.Call)
-            and endswith(fn.name(s.iter) or "", "_changes_map.items")][0]
-    # the add_changes call is guarded only by `changes` and `not col.is_private()`
-    conds = []
-    def find(stmts, acc):
-      for s in stmts:
-        if isinstance(s, ast.If):
-          find(s.body, acc + [s.test])
-          find(s.orelse, acc + [ast.UnaryOp(op=ast.Not(), operand=s.test)])
-        elif isinstance(s, (ast.Continue, ast.Break, ast.Return)):
-          conds.append(("skip", acc))
-        else:
-          for c in calls_in(s):
-            if E.is_summary_add_changes(c, fn.name(c), fn):
-              conds.append(("emit", acc))
-    find(loop.body, [])
-    emits = [a for (k, a) in conds if k == "emit"]
-    skips = [a for (k, a) in conds if k == "skip"]
-    ok = len(emits) == 1 and not skips
+    flow = Flow(fn)
+    cfg = fn.cfg
+    heads = [n for n in cfg.nodes if n.kind == "for" and isinstance(n.stmt.iter, ast.Call) and
+             endswith(fn.name(n.stmt.iter) or "", "_changes_map.items")]
+    ok = len(heads) == 1
     if ok:
-      atoms = []
-      for t in emits[0]:
-        atoms.extend(t.values if isinstance(t, ast.BoolOp) and isinstance(t.op, ast.And) else [t])
-      for a in atoms:
-        ta = text(a)
-        if isinstance(a, ast.Name):
-          continue    # the (non-empty) changes list itself
-        if isinstance(a, ast.UnaryOp) and isinstance(a.op, ast.Not) and \
-            isinstance(a.operand, ast.Call) and isinstance(a.operand.func, ast.Attribute) and \
-            a.operand.func.attr == "is_private":
-          continue
-        ok = False
+      head = heads[0]
+      body = flow.loop_body(head.id)
+      emits = [n for (n, c, nm) in fn.calls() if n.id in body and
+               E.is_summary_add_changes(c, nm, fn)]
+      ok = len(emits) == 1
+      for n in emits:
+        # the add_changes call is conditional only on the change list being non-empty and on
+        # the column not being private -- however those two tests are spelled
+        for (t, pol, i) in flow.facts_inside(n.id, head.id):
+          if isinstance(t, ast.Name) and pol is True and flow.binder(t.id, i) is head:
+            continue    # the (non-empty) changes list of this entry
+          if isinstance(t, ast.Call) and isinstance(t.func, ast.Attribute) and \
+              t.func.attr == "is_private" and not t.args and pol is False:
+            continue
+          ok = False
+        # and nothing leaves the loop early
+        ok = ok and not any(cfg.nodes[x].kind in ("break", "return") for x in body)
     run.ob(R5, f.qualname, "for node, changes in self._changes_map.items(): ... add_changes",
            "only empty change lists and private columns are withheld from the summary", ok, fi=f)
   au = w.fn("engine.Engine.apply_user_actions")
@@ -407,9 +417,11 @@ def r7_stored_writers(run, w):
   # engine's built-in tables
   init = w.fn("useractions.UserActions.InitNewDoc")
   ext = [c for (n, c, nm) in init.calls() if endswith(nm, "out_actions.stored.extend")]
-  ok = len(ext) == 1 and isinstance(ext[0].args[0], ast.Name) and any(
-    isinstance(v, ast.Call) and endswith(dotted(v.func), "schema_create_actions")
-    for v in E.local_defs(init.node, ext[0].args[0].id))
+  iflow = Flow(init)
+  ok = len(ext) == 1 and nargs(ext[0]) == 1 and bool(ext[0].args) and all(
+    iflow.denotes(ext[0].args[0], k, lambda v, kk: isinstance(v, ast.Call) and
+                  endswith(dotted(v.func), "schema_create_actions"))
+    for k in iflow.where(ext[0]))
   run.ob(R7, init.qualname, "stored.extend(schema.schema_create_actions())",
          "the only unapplied stored actions are the built-in schema creation actions", ok,
          fi=init.fi)
@@ -436,33 +448,36 @@ def r8_private_excluded(run, w):
   }
   for q, need in sorted(sites.items()):
     fn = w.fn(q)
-    loops = [s for s in ast.walk(fn.node) if isinstance(s, ast.For) and
-             "all_columns" in text(s.iter)]
-    if not loops:
+    flow = Flow(fn)
+    cfg = fn.cfg
+    heads = [n for n in cfg.nodes if n.kind == "for" and "all_columns" in text(n.stmt.iter)]
+    comps = [(n, x) for n in cfg.nodes for e in n.exprs for x in walk_no_nested(e)
+             if isinstance(x, (ast.DictComp, ast.ListComp, ast.SetComp, ast.GeneratorExp)) and
+             any("all_columns" in text(g.iter) for g in x.generators)]
+    if not heads and not comps:
       raise AnalysisError("%s no longer iterates all_columns" % q)
-    for lp in loops:
+    def check_guard(site, atoms):
+      guard_txt = " ".join(("" if pol else "not ") + text(t) for (t, pol) in atoms)
+      ok = all(any(p + "(" in text(t) for (t, pol) in atoms) for p in need)
+      # a decomposed atom that is the predicate call itself must be required false
+      for (t, pol) in atoms:
+        if isinstance(t, ast.Call) and isinstance(t.func, (ast.Attribute, ast.Name)) and \
+            (t.func.attr if isinstance(t.func, ast.Attribute) else t.func.id) in need and pol:
+          ok = False
+      run.ob(R8, q, short(site), "column enters the action only under guards %s" % "/".join(need),
+             ok, fi=fn.fi, node=site)
+    for head in heads:
       # the statement that stores into the output dict must be guarded by each needed predicate
-      stores = []
-      def find(stmts, acc):
-        for s in stmts:
-          if isinstance(s, ast.If):
-            neg = isinstance(s.body[0], ast.Continue) if s.body else False
-            if neg:
-              acc = acc + [s.test]
-              find(s.orelse, acc)
-            else:
-              find(s.body, acc + [s.test])
-              find(s.orelse, acc)
-          elif isinstance(s, ast.Assign) and isinstance(s.targets[0], ast.Subscript):
-            stores.append((s, acc))
-          elif isinstance(s, (ast.For, ast.While)):
-            find(s.body, acc)
-      find(lp.body, [])
-      for (s, acc) in stores:
-        guard_txt = " ".join(text(a) for a in acc)
-        ok = all(p in guard_txt for p in need)
-        run.ob(R8, q, short(s), "column enters the action only under guards %s" % "/".join(need),
-               ok, fi=fn.fi, node=s)
+      body = flow.loop_body(head.id)
+      for n in cfg.nodes:
+        if n.id in body and n.kind == "stmt" and isinstance(n.stmt, ast.Assign) and \
+            isinstance(n.stmt.targets[0], ast.Subscript):
+          check_guard(n.stmt, [(t, pol) for (t, pol, i) in flow.facts_inside(n.id, head.id)])
+    for (n, x) in comps:
+      if not isinstance(x, ast.DictComp):
+        continue
+      atoms = [f for g in x.generators for t in g.ifs for f in facts_full(t, True)]
+      check_guard(x, atoms)
 
 
 def r9_presence(run, w):
